@@ -544,7 +544,15 @@ func blobHoldsContent(sharedDB *sql.DB, blobID int64, content, s3BlobID string) 
 		return err == nil && storageType == "s3" && stored == s3BlobID
 	}
 	stored, err := db.GetBlob(sharedDB, blobID)
-	return err == nil && stored == content
+	if err != nil || stored != content {
+		return false
+	}
+	if content == "" {
+		// GetBlob returns "" for every S3 row: an empty part is held only by a local row
+		_, storageType, err := db.GetBlobS3BlobID(sharedDB, blobID)
+		return err == nil && storageType != "s3"
+	}
+	return true
 }
 
 // ReconstructMessageWithSharedDBAndS3 reconstructs the raw message from database parts with S3 support and shared blob storage
